@@ -24,6 +24,8 @@ PROPERTY = {
         Harness("c11_shard_info_new", "C11.shard_info_new", "PROVED-C",
                 "ShardInfo::new: Ok <=> shard < nr_shards, fields preserved; get_sharder copies them",
                 functions=[F + "ShardInfo::new", F + "ShardInfo::get_sharder"]),
+        Harness("c11_search_lowest_port", "C11.search.lowest_port", "BOUNDED", "counterexample search for the lowest-port contract (proved by Verus)", bound="search only, 300 s", search_only=True, timeout=300, functions=[F + "Sharder::calculate_lowest_port_for_shard_in_range"]),
+        Harness("c11_search_shard_of_source_port", "C11.search.shard_of_source_port", "BOUNDED", "counterexample search for shard_of_source_port's contract (proved by Verus)", bound="search only, 300 s", search_only=True, timeout=300, functions=[F + "Sharder::shard_of_source_port"]),
         Harness("c11_spec_shard_sanity", "C11.spec_shard.sanity", "PROVED-C",
                 "oracle self-check on ScyllaDB's documented corner values", carries=False),
         Harness("c11_canary_shard_of_is_zero", "C11.canary", "PROVED-C", "a false claim must be refuted",
